@@ -2,7 +2,7 @@
    [stmt] of the property holds on the model's own observation, which never contains a panic.  Together with the correspondence
    (implementation observation = model observation on the generated cases) this is what makes the judge's verdict meaningful. *)
 From CSL Require Import Base.Prelude Base.Hex Cbor.Head Crypto.Iface Crypto.Wrappers Crypto.WrappersProofs
-  Crypto.Emip3 Crypto.Emip3Proofs Crypto.Obs.
+  Crypto.Emip3 Crypto.Emip3Proofs Crypto.Obs Crypto.Bech32Inst.
 Local Open Scope N_scope.
 
 Definition all_laws (P : prims) : Prop :=
@@ -402,3 +402,16 @@ Proof.
 Qed.
 
 End JudgeProofs.
+
+(* with the concrete bech32 codec only the twelve laws about the cryptographic primitives remain premises *)
+Definition crypto_laws (P : prims) : Prop :=
+  law_shapes P /\ law_sign_normal P /\ law_sign_extended P /\ law_xpub_layout P /\ law_soft_derivation P /\
+  law_hard_refused P /\ law_normalize3 P /\ law_pbkdf2_bip39_shape P /\
+  law_aead_roundtrip P /\ law_aead_shapes P /\ law_aead_authentic P /\ law_aead_plain_by_ct P.
+
+Lemma all_laws_concrete P : crypto_laws P -> all_laws (with_bech32 P).
+Proof.
+  intros (A & B & C & D & E & F & G & H & I & J & K & L).
+  exact (conj A (conj B (conj C (conj D (conj E (conj F (conj G (conj H (conj I (conj J (conj K (conj L
+        (conj (concrete_base32_roundtrip P) (concrete_bech32_roundtrip P)))))))))))))).
+Qed.
